@@ -17,7 +17,8 @@ RULE = ('A program P (adds, merges, clones over 3 registers; adds only for Quant
         'and both lossless formats (JSON text via serde_json with float_roundtrip; serde_json::Value tree), with every '
         'register whose fields are finite replaced at position k by deserialize(serialize(register)); the final '
         'observations of all registers (every public accessor) must be bit-identical to the uninterrupted run. '
-        'Also: serialising without restoring (SO) changes nothing. Quantile checkpoints include the <5-observation phase '
+        'Also: serialising without restoring (SO) changes nothing. Special programs: sample sizes beyond 2^53 (self-merging, '
+        'histogram *= by large factors) and Min/Max over +-0, subnormals and the largest finite values. Quantile checkpoints include the <5-observation phase '
         'and the 5th observation. distinct_nontrivial = distinct (type, program, k, format) variants with >=1 non-empty '
         'register round-tripped and >=1 op executed after the restore.')
 ASSUME = ['driver faithfully prints accessor bit patterns',
@@ -97,6 +98,49 @@ def gen_hist_program(rng, typ, L):
     return ops, edges
 
 
+TINY = [0.0, -0.0, 5e-324, -5e-324, 1e-310, -1e-310, 2.2250738585072014e-308, -2.2250738585072014e-308, 1.0, -1.0, 1.7976931348623157e308,
+        -1.7976931348623157e308]
+
+
+def special_program(rng, types):
+    """Programs aimed at the corners of the serialised representation: sample sizes beyond 2^53 (reached by repeated
+    self-merging / histogram *= with large factors, then made odd by single adds, so a count that takes a detour through f64
+    comes back changed), and Min/Max whose extremum is +-0, a subnormal or the largest finite value."""
+    kind = rng.randrange(3)
+    if kind == 0:
+        typ = rng.choice(['Min', 'Max'])
+        ops = []
+        for _ in range(rng.randint(2, 7)):
+            r = rng.random()
+            if r < 0.75:
+                ops.append(('A', rng.randrange(3), [rng.choice(TINY) for _ in range(rng.randint(1, 2))]))
+            elif r < 0.9:
+                ops.append(('M', rng.randrange(3), rng.randrange(3)))
+            else:
+                a, b = rng.sample(range(3), 2)
+                ops.append(('K', a, b))
+        return typ, ops, None
+    if kind == 1:
+        typ = rng.choice([t for t in types if t in HISTS])
+        n = 10 if typ == 'Histogram10' else int(typ[1:])
+        edges = [float(i) for i in range(n + 1)]
+        ops = [('HA', 0, [rng.uniform(0, n) for _ in range(rng.randint(1, 3))]),
+               ('H*', 0, rng.choice([2 ** 30, 2 ** 27 + 1])), ('H*', 0, rng.choice([2 ** 24, 2 ** 25 + 3])),
+               ('HA', 0, [rng.uniform(0, n) for _ in range(rng.randint(1, 3))]),
+               ('K', 1, 0), ('HA', 1, [rng.uniform(0, n)]), ('H+', 0, 1), ('HA', 0, [rng.uniform(0, n)])]
+        return typ, ops, edges
+    typ = rng.choice([t for t in types if t not in HISTS and t not in ('Min', 'Max', 'Quantile')])
+    arity = ARITY.get(typ, 1)
+
+    def pt():
+        x = float(rng.randint(-20, 20)) + rng.choice([0.0, 0.5, 0.25])
+        return [x, float(rng.randint(1, 9))] if arity == 2 else [x]
+    ops = [('A', 0, pt() + pt() + pt())]
+    ops += [('M', 0, 0)] * rng.choice([52, 53, 54, 60])
+    ops += [('A', 0, pt()), ('K', 1, 0), ('A', 1, pt()), ('M', 0, 1), ('A', 0, pt())]
+    return typ, ops, None
+
+
 def emit(c, typ, ops, k, fmt, mode, edges=None):
     """Emit program with checkpoint at position k (k=None: baseline).  Returns
     (marks, n_roundtripped_nonempty, ops_after)."""
@@ -150,6 +194,7 @@ def shard(desc):
     variant = desc['variant']
     cases, groups = [], []
     cid = 0
+    work = []
     for i in range(desc['nprog']):
         typ = rng.choice(desc['types'])
         L = rng.randint(1, desc['maxlen'])
@@ -165,6 +210,12 @@ def shard(desc):
             if typ == 'Quantile':
                 params = [rng.choice([0.0, 0.25, 0.5, 0.9, 1.0, 0.1, 0.3, 0.7, rng.random(), rng.random()])]
                 # make streams long enough to cross the 5-observation boundary often
+        work.append((typ, ops, edges, params))
+    for i in range(desc.get('nspecial', 0)):
+        typ, ops, edges = special_program(rng, desc['types'])
+        work.append((typ, ops, edges, []))
+        res.count('special_programs')
+    for typ, ops, edges, params in work:
         base = Case('%s-%d' % (desc['name'], cid), typ, params)
         cid += 1
         bm, _, _ = emit(base, typ, ops, None, 'j', 'S', edges)
@@ -318,13 +369,14 @@ def run(tier, seed):
             descs = [{'name': '%s%d' % (variant[0], s), 'variant': variant, 'binary': binary, 'types': types,
                       'nprog': max(1, int(nprog * frac) // nsh), 'maxlen': maxlen, 'maxpos': maxpos,
                       'nlong': (1 if s < (2 if tier == 'quick' else 16) and variant == 'release' else 0),
+                      'nspecial': 6 if tier == 'quick' else 12,
                       'seed': seed * 1000003 + s * 7919 + sum(map(ord, variant))} for s in range(nsh)]
             total.merge(common.run_shards(shard, descs))
         if tier == 'thorough':
             miri_leg(seed, total)
     except common.Inconclusive as e:
         total.inconclusive.append(str(e))
-    need = {'nontrivial_variants': 2000, 'serialize_only_variants': 200, 'quantile_checkpoints': 100, 'long_quantile_programs': 2}
+    need = {'nontrivial_variants': 2000, 'serialize_only_variants': 200, 'quantile_checkpoints': 100, 'long_quantile_programs': 2, 'special_programs': 100}
     for t in EST + HISTS + ['Quantile']:
         need['programs_%s' % t] = 5
     if tier == 'thorough':
